@@ -320,7 +320,7 @@ func c18Deadlines(r *Run) {
 	for i := 0; i < nSteps; i++ {
 		plan = append(plan, step{kind: t.Draw(5), d: durs[t.Draw(len(durs))], reset: t.Draw(2)})
 	}
-	terminal := t.Draw(3) // 0 none, 1 active read, 2 active write
+	terminal := t.Draw(5) // 0 none, 1 active read, 2 active write, 3/4 a past deadline set while a Read / Write is blocked
 	// bgRead: a Read is blocked in another goroutine during the whole program,
 	// which then only exercises the write side (write deadlines must not be
 	// confused by an active reader and vice versa).
@@ -334,6 +334,9 @@ func c18Deadlines(r *Run) {
 		if terminal == 1 {
 			terminal = 2
 		}
+		if terminal == 3 {
+			terminal = 4
+		}
 	}
 	termD := []time.Duration{time.Millisecond, time.Second, 10 * time.Second}[t.Draw(3)]
 	sig := fmt.Sprintf("deadline,terminal=%d", terminal)
@@ -343,7 +346,7 @@ func c18Deadlines(r *Run) {
 		pd = append(pd, fmt.Sprintf("%s/%v/reset%d", []string{"rt", "idle-read", "idle-write", "idle-both", "future"}[s.kind], s.d, s.reset))
 	}
 	r.D("plan", pd)
-	r.D("terminal", []string{"none", "active-read", "active-write"}[terminal])
+	r.D("terminal", []string{"none", "active-read", "active-write", "interrupt-read", "interrupt-write"}[terminal])
 	r.D("term_d", termD.String())
 	r.D("role_lib_client", o.LibClient)
 	r.Nontrivial = true
@@ -482,6 +485,55 @@ func c18Deadlines(r *Run) {
 			r.S.Sleep(time.Second)
 			if !rc.Lib.Closed() {
 				r.Violate("active-deadline-not-closed", sig, "deadline fired during a blocked Read (err %v) but the connection was not closed", err)
+			}
+		case 3, 4:
+			// the usual way to interrupt a net.Conn call: set a deadline that has
+			// already passed while the call is blocked in another goroutine
+			var callErr error
+			returned := false
+			var retAt time.Duration
+			if terminal == 4 {
+				hold = true
+				rc.Lib.Out().Cap = 1024
+				rc.Lib.Out().HardCap = true
+			}
+			r.S.Go("blocked", func() {
+				if terminal == 3 {
+					_, callErr = nc.Read(make([]byte, 10))
+				} else {
+					_, callErr = nc.Write(Payload{Kind: 2, Len: 50000, Seed: 4}.Bytes())
+				}
+				retAt = r.S.Now()
+				returned = true
+			})
+			r.S.ParkE("a.prog.blockwait", func() bool {
+				if terminal == 3 {
+					return rc.Lib.InReadLocked()
+				}
+				return rc.Lib.InWriteLocked()
+			}, nil)
+			r.S.Sleep(termD)
+			at := r.S.Now()
+			past := time.Now().Add(-time.Duration(1+plan[0].reset) * time.Second)
+			if terminal == 3 {
+				nc.SetReadDeadline(past)
+			} else {
+				nc.SetWriteDeadline(past)
+			}
+			r.S.Sleep(2 * time.Second)
+			hold = false
+			if !returned {
+				r.Violate("active-deadline-ignored", sig, "a deadline in the past was set while the call was blocked; 2 s later the call is still blocked")
+				return
+			}
+			if callErr == nil {
+				r.Violate("active-deadline-ignored", sig, "the interrupted call returned nil")
+			}
+			if retAt-at > time.Second {
+				r.Violate("active-deadline-timing", sig, "the interrupted call returned %v after the deadline was set", retAt-at)
+			}
+			if !rc.Lib.Closed() {
+				r.Violate("active-deadline-not-closed", sig, "deadline fired during a blocked call (err %v) but the connection was not closed", callErr)
 			}
 		case 2:
 			hold = true
